@@ -307,6 +307,16 @@ func init() {
 					}
 				}
 			}
+			// the same bytes offered as a reader instead of a file name
+			{
+				zb := writeZip(all)
+				rd2, err2 := epubdoc.OpenReader(bytes.NewReader(zb), int64(len(zb)))
+				isDRM2 := err2 != nil && errors.Is(err2, epubdoc.ErrDRMProtected)
+				if rd2 != nil {
+					rd2.Close()
+				}
+				r.Check(isDRM2 == isDRM && (err2 == nil) == (err == nil), "drm-open-reader", fmt.Sprintf("epubdoc.Open says %v, epubdoc.OpenReader on the same bytes says %v", err, err2), cv)
+			}
 			// the same through the top-level API
 			if i%10 == 0 {
 				ext := tabula.Open(path)
